@@ -32,6 +32,8 @@ def jobs(tier, pid="C07"):
     if pid == "C09":
         # the type of a scope is the product of its current elements' types, after every addition: every kind of scope
         return [job("var-fun", 4 if q else 5, [1], ["var", "fundecl"]),
+                # a declaration has the type it was declared with; an alias that of its initializer (a literal, a class)
+                job("aliases", 3 if q else 4, [1, 2], ["alias", "typedecl", "var"], names=(1, 2), types=(1, 2)),
                 job("homogeneous", 4 if q else 5, [3, 4, 5, 6], ["param", "enumerator", "base", "ehparam"], names=(1, 2, 3), types=(1, 2))]
     return [
         job("var-fun", 5, [1], ["var", "fundecl"]),
@@ -103,7 +105,7 @@ def run(pid, tier, seed):
             part = f["key"].split(":")[1]
             # read-back of what a declaration was given (name, type, aliasee) is C02's; its place in the scope is C07's
             if pid == "C09":
-                skip = part not in ("types", "elements")
+                skip = part not in ("types", "elements", "t")
             elif pid == "C02":
                 skip = part not in ("init", "n", "t", "spec", "pos")
             else:
